@@ -1,18 +1,5 @@
-\* family "frames", thorough: every status-line kind x header set x Content-Length declaration x body length,
-\* closed at every token boundary / line edge / every byte of the status line, stalls on the 200 streams
-CONSTANTS SLKinds = {1, 2, 3, 4, 5}
-          HdrKinds = {1, 2, 3, 4, 5}
-          MaxHdrs = 2
-          CLVals <- CLValsThorough
-          CLNames = {0, 1}
-          CLDups <- DupsThorough
-          MaxBody = 4
-          BodyByPos = TRUE
-          BodyAlpha = {120}
-          FragAll = {"sl", "end", "h", "cl"}
-          FragDepth = 1
-          StallSL = {1, 2, 3, 4, 5}
-          StallFrags = FALSE
+\* thorough: families FramesThorough (5 status lines x 0..2 of 5 headers x Content-Length incl. duplicates and both spellings x bodies 0..4, stalls also inside lines) and BodiesThorough (every body over {x,CR,LF} up to 6 bytes)
+CONSTANTS Fams <- FamsThorough
           Conforming = {"enforce", "truncate", "strict"}
           Others = {"as_built", "m_status200", "m_short", "m_bodyterm", "m_notimeout", "m_panic", "m_drophdr", "m_halfheader"}
 INIT Init
